@@ -4,6 +4,7 @@ package main
 
 import (
 	"fmt"
+	"strings"
 )
 
 func containsCanon(items []any, v any) bool {
@@ -225,9 +226,32 @@ func c06Known(ec *epCase, f *Failure) *Failure {
 	return f
 }
 
+func c06Optional(c Case) *Failure {
+	parsed, err, pan := implParse(c.Path)
+	if err != nil || pan != "" {
+		return nil // not accepted by this parser: nothing to relate
+	}
+	doc := mustDoc(c.Doc, c.Num)
+	q, f, e := implQuery(parsed, doc, runCfg{}), implFirst(parsed, doc, runCfg{}), implExists(parsed, doc, runCfg{})
+	switch {
+	case q.Class == "panic" || f.Class == "panic" || e.Class == "panic":
+		return &Failure{Sig: "C06/optional-path/panic", Expected: "no panic", Observed: q.String() + " / " + f.String() + " / " + e.String()}
+	case f.Class != q.Class:
+		return &Failure{Sig: "C06/optional-path/first-vs-query", Expected: q.String(), Observed: f.String()}
+	case q.Class == "ok" && (e.Class != "ok" || e.Bool != (len(q.Items) > 0)):
+		return &Failure{Sig: "C06/optional-path/exists-vs-query", Expected: fmt.Sprint(len(q.Items) > 0, " (Query: ", q.String(), ")"), Observed: e.String()}
+	case strings.HasPrefix(c.Path, "strict ") && q.Class != "ok" && e.Class == "ok":
+		return &Failure{Sig: "C06/optional-path/strict-exists-hides-error", Expected: q.String(), Observed: e.String()}
+	}
+	return nil
+}
+
 func checkC06(c Case) *Failure {
 	if c.Rule == "reloaded-path" {
 		return c06Reloaded(c)
+	}
+	if c.Rule == "optional-path" {
+		return c06Optional(c)
 	}
 	return c06Oracle(epReplay(c))
 }
@@ -287,6 +311,29 @@ func runC06(r *Run) {
 	kes, kvals := keyvalueWalks()
 	r.Bound("keyvalue_walk_paths", 2*len(kes))
 	epSweep(r, "entry-point-relations", bothModes(kes), makeDocs(kvals), epCfgs()[:2], c06Oracle)
+	// path texts the pinned parser rejects (@ or last in positions it forbids): should a parser accept one of
+	// them, the five entry points must still tell one story about it
+	optional := []string{`$ ? (@.i == 0).a[@.i]`, `$ ? (@ > 0)[@]`, `$.a ? (@.b == 1).c[@.b to last]`, `$[@]`, `$.a[@.i]`, `$ ? (@.i == 0).a[0 to @.i]`, `$[0] ? (@ == last)`, `$.a[1].b ? (last > 0)`,
+		`$ ? (last > 0)`, `@.a`, `@ == 1`, `$.a + @`, `last`, `$[*] ? (@ == 1).b[last ? (@ > @)]`, `exists(@)`, `$.a ? (@ == 1) ? (@ > 0)[@]`}
+	odocs := []string{`{"i":0,"a":[10,20]}`, `[1,2,3]`, `{"a":[{"b":1,"c":[5,6]},{"i":1}],"i":1}`, `[[1,2],[3]]`, `1`}
+	for _, t := range optional {
+		for _, mode := range []string{"", "strict "} {
+			parsed, err, pan := implParse(mode + t)
+			if err != nil || pan != "" {
+				continue
+			}
+			_ = parsed
+			for _, d := range odocs {
+				for _, num := range []string{"float64", "number"} {
+					c := Case{Rule: "optional-path", Path: mode + t, Doc: d, Num: num}
+					r.evals.Add(1)
+					if f := c06Optional(c); f != nil {
+						r.Fail(c, f)
+					}
+				}
+			}
+		}
+	}
 	// a re-loaded Path object: all ordered pairs of a pool mixing predicate checks and item paths x 4 loaders
 	var rl []Case
 	for _, a := range c06ReloadPool {
